@@ -211,7 +211,9 @@ impl BDF {
             } else {
                 guess
             };
-            guess.abs()
+            // A guess below the resolution of x cannot advance x at all: start from ten ulps
+            // and let the error control adapt (violent initial transients of stiff problems)
+            guess.abs().max(10.0 * Float::EPSILON * x.abs()).min(max_h)
         };
 
         h_abs = h_abs.min(hmax.max(Float::MIN_POSITIVE));
